@@ -427,6 +427,9 @@ def gen_scenarios(ctx, rng):
                                                          dict(id="b", spec="popen//id=b", program="sigint-ignored")]),
             dict(kind="terminate", timeout=0.5, members=[dict(id="m", spec="popen//id=m", program="idle"),
                                                          dict(id="k", spec="socket//installvia=m//id=k", program="sleep")]),
+            # the boundary value: terminate(timeout=0) kills at once and returns (0 is a time-out, not "no time-out")
+            dict(kind="terminate", timeout=0.0, members=[dict(id="a", spec="popen//id=a", program="stopped"),
+                                                         dict(id="b", spec="popen//id=b", program="busy")]),
         ]
         for sc in out:
             sc["execmodel"] = "thread"
@@ -436,7 +439,7 @@ def gen_scenarios(ctx, rng):
     n = ctx.budget(6, 240, 60)
     for i in range(n):
         topo = rng.choice(["popen", "popen", "via", "via", "socket", "chain"])
-        T = rng.choice([0.2, 0.5, 1.0])
+        T = rng.choice([0.2, 0.5, 1.0, 0.0])
         members = []
         if topo == "popen":
             for k in range(rng.randint(1, 4)):
@@ -574,7 +577,20 @@ class ScenarioRun(threading.Thread):
                 err = b""
                 try:
                     p.kill()
-                    err = p.stderr.read()
+                    # the workers (one of them may be SIGSTOPped) hold the scenario's stderr pipe open: end them first, and
+                    # never wait for an end of that pipe without a limit
+                    for k in list(seen) + list(pids.values()):
+                        if proc_state(k) not in (None, "Z"):
+                            kill_quietly(k)
+                    t_lim = time.time() + 3.0
+                    while time.time() < t_lim:
+                        r, _, _ = select.select([p.stderr], [], [], 0.2)
+                        if not r:
+                            continue
+                        chunk = os.read(p.stderr.fileno(), 65536)
+                        if not chunk:
+                            break
+                        err += chunk
                 except Exception:  # noqa: BLE001
                     pass
                 if ready_at is None:
